@@ -340,3 +340,16 @@ impl<T> VIter<T> {
         ensures forall|p: spec_fn(T) -> bool| (forall|x: T, b: bool| f.ensures((x,), b) ==> b == p(x)) ==> r == #[trigger] seq_all(self@, p),
     { unimplemented!() }
 }
+pub open spec fn seq_map_while<T, U>(s: Seq<T>, g: spec_fn(T) -> Option<U>) -> Seq<U>
+    decreases s.len()
+{
+    if s.len() == 0 { Seq::empty() } else { match g(s[0]) { Some(u) => seq![u] + seq_map_while(s.subrange(1, s.len() as int), g), None => Seq::empty() } }
+}
+impl<T> VIter<T> {
+    // Iterator::map_while: the mapped items up to (excluding) the first one mapped to None, then the iterator ENDS
+    #[verifier::external_body]
+    pub fn map_while<U, F: Fn(T) -> Option<U>>(self, f: F) -> (r: VIter<U>)
+        requires forall|x: T| f.requires((x,)),
+        ensures forall|g: spec_fn(T) -> Option<U>| (forall|x: T, y: Option<U>| f.ensures((x,), y) ==> y == g(x)) ==> r@ == #[trigger] seq_map_while(self@, g),
+    { unimplemented!() }
+}
